@@ -147,6 +147,29 @@ def part_values(ctx):
             ctx.case({'derived': name}, kind='derived')
 
 
+def part_integer_typed(ctx):
+    """a variable whose VALUE is an integer of any type (Python int, numpy int64 / int32 from np.arange, an entry of an integer array) is the same
+    number as the float: f(N) = f(float(N)) for every one-argument default function (no integer division, no integer overflow)"""
+    import numpy as np
+    from mitxgraders.helpers.calc import evaluator
+    from mitxgraders.helpers.calc.mathfuncs import DEFAULT_FUNCTIONS, DEFAULT_VARIABLES
+    names = sorted(n for n in DEFAULT_FUNCTIONS if n not in ('fact', 'factorial', 'min', 'max', 'arctan2', 'kronecker'))
+    for n_ in (2, 3, 5, -2, 1):
+        for label, val in [('int', int(n_)), ('np.int64', np.int64(n_)), ('np.int32', np.int32(n_)), ('arange entry', np.arange(-2, 6)[n_ + 2])]:
+            for f in names:
+                def one(v_):
+                    try:
+                        return ('val', evaluator('%s(N)' % f, dict(DEFAULT_VARIABLES, N=v_), DEFAULT_FUNCTIONS, {})[0])
+                    except Exception as exc:
+                        return ('err', type(exc).__name__)
+                a, b = one(val), one(float(n_))
+                case = {'part': 'integer-typed', 'function': f, 'N': n_, 'type': label}
+                ctx.case(case, nontrivial_key=('inttyped', f, n_, label), kind='integer-typed')
+                same = a[0] == b[0] and (a[1] == b[1] if a[0] == 'err' else (a[1] == b[1] or (a[1] != a[1] and b[1] != b[1]) or abs(complex(a[1]) - complex(b[1])) <= 1e-12 * max(1.0, abs(complex(b[1])))))
+                if not same:
+                    ctx.violation('%s(N) with N = %r (%s) gives %r, with N = %r it gives %r' % (f, n_, label, a[1], float(n_), b[1]), case, impl=repr(a[1]))
+
+
 def part_special(ctx):
     rng = ctx.rng
     # arctan2(x, y): documented argument order, range (-pi, pi]
@@ -316,6 +339,7 @@ def part_disturbed(ctx):
 def run(ctx):
     part_values(ctx)
     part_special(ctx)
+    part_integer_typed(ctx)
     part_domain(ctx)
     part_disturbed(ctx)
 
